@@ -6,7 +6,8 @@ V = "/verif"
 res = {}
 # round 1: results.jsonl; round 2: confirmations in results-r2.jsonl, final check runs in results-r2-final.jsonl;
 # runs of other properties' checks against a change in cross.jsonl (check ids are in the "== Cxx seed=" lines)
-for fn in ("results.jsonl", "results-r2.jsonl", "results-r2-final.jsonl", "results-r3.jsonl", "results-r3-final.jsonl"):
+for fn in ("results.jsonl", "results-r2.jsonl", "results-r2-final.jsonl", "results-r3.jsonl", "results-r3-final.jsonl",
+           "results-r4.jsonl", "results-r4-final.jsonl"):
     p = os.path.join("/tmp/seed-out", fn)
     if not os.path.exists(p):
         continue
@@ -29,7 +30,7 @@ if os.path.exists(p):
             continue
         cross.setdefault(r["id"], []).append(r["check"])
 rows = []
-for d in sorted(glob.glob("/tmp/seed-out/C*C*/C*-?") + glob.glob("/tmp/seed-out/r2-*/C*-?*") + glob.glob("/tmp/seed-out/r3-*/C*-?")):
+for d in sorted(glob.glob("/tmp/seed-out/C*C*/C*-?") + glob.glob("/tmp/seed-out/r2-*/C*-?*") + glob.glob("/tmp/seed-out/r3-*/C*-?") + glob.glob("/tmp/seed-out/r4-*/C*-?")):
     sid = os.path.basename(d)
     if sid not in res:
         continue
@@ -69,7 +70,7 @@ for d in sorted(glob.glob("/tmp/seed-out/C*C*/C*-?") + glob.glob("/tmp/seed-out/
         extra = json.load(open(ov)).get(sid, {})
     out = {
         "id": sid, "property": prop,
-        "summary": meta.get("summary", ""), "needs_to_manifest": meta.get("needs", ""),
+        "summary": meta.get("summary", ""), "needs_to_manifest": meta.get("needs", meta.get("needs_to_manifest", "")),
         "written_by": "fresh sub-agent given only the property text and its own scratch worktree of /repo (no access to /verif)",
         "confirmation": {"what_i_ran": "tools/seed_confirm.sh: scratch worktree, RelWithDebInfo build, ctest -j8 (19 tests), "
                          "demo/run.sh on the unchanged and on the changed build", "result": conf},
@@ -90,7 +91,7 @@ with open(os.path.join(V, "seeded", "INDEX.md"), "w") as f:
     f.write("# Seeded breaking changes and which check catches them\n\n"
             "Each change compiles, passes the 19-test suite and fails its own demonstration only with the change applied "
             "(confirmed by `tools/seed_confirm.sh` / `tools/seed_par.sh`). `caught` = the property's quick check exits 1 with the "
-            "keys listed (ids ending in a/b: round 1, run by applying the change to /repo and restoring it; c/d/e: round 2, f/g: round 3, both "
+            "keys listed (ids ending in a/b: round 1, run by applying the change to /repo and restoring it; c/d/e: round 2, f/g: round 3, h: round 4, all "
             "run in a scratch worktree with private build and output directories, seeds 12648430, 1, 2 until one fires). "
             "Where the check of the property a change was written for does not catch it, the check that does is named; "
             "`meta.json` of each change has the details (`other_checks_that_catch_it` lists cross-property runs).\n\n"
